@@ -48,12 +48,13 @@ def parseSamples (s : String) : Option (List (Int × Int)) :=
     | [x, y] => do pure (← parseInt x, ← parseInt y)
     | _ => none
 
-inductive RenOp | call (c : Call F32) | rc | rn
+inductive RenOp | call (c : Call F32) | rc | rn | rast (r : Ren.Rect)
 
 def parseRenOp (toks : List String) : Option RenOp :=
   match toks with
   | ["rc"] => some .rc
   | ["rn"] => some .rn
+  | ["rast", x0, y0, x1, y1] => do pure (.rast ⟨← parseInt x0, ← parseInt y0, ← parseInt x1, ← parseInt y1⟩)
   | _ => (parseCall toks).map .call
 
 def runRen (hdr : List String) (body : String) : String :=
@@ -67,6 +68,7 @@ def runRen (hdr : List String) (body : String) : String :=
         match op with
         | .rc => (z, s!"s={z.cSel}" :: out)
         | .rn => (z, s!"s={z.nSel}" :: out)
+        | .rast r => (z.setRasterizer r, out)
         | .call c =>
           let (z, rops) := z.step arcF32 F32.posInf c
           (z, (rops.map (showRasterOp samples)).reverse ++ out)) (z, [])
